@@ -7,6 +7,7 @@
 //!   blk rw i n d x                                -> new line of line x            [iterate_moves]
 //!   appb rw i n d same qr qc sa row col ar ac     -> as app, after a block move    [apply_disp_seq (move_disps ..)]
 //!   hid last i n d h1.h2...                       -> "ok d'" | "err"               [hidden_adjust + move_valid]
+//!   val last at delta                             -> "ok" | "err"                  [edit_valid]
 //! The edited sheet is always sheet 0; sheet 1 is "the other sheet".
 use crate::*;
 use ironcalc_base::expressions::parser::Node;
@@ -307,6 +308,27 @@ pub fn cmap_window(cs: &mut Cases, st: &mut Stats, kinds: &[i32], deltas: &[i32]
             let base = if rowwise { (last - 12, 1) } else { (1, last - 12) };
             for at in [last - 14, last - 12, last - 8, last - 5, last - 4, last - 3, last] {
                 cmap_batch(cs, st, k, at, delta, base);
+            }
+        }
+    }
+}
+
+/// argument validation of insert (delta > 0) / delete (delta < 0) on a sheet whose only cell is
+/// B2, so that the workbook-dependent tests (array formulas, dimension) never fire
+pub fn valid_cases(cs: &mut Cases, st: &mut Stats, deltas: &[i32]) {
+    for k in [K_ROW, K_COL] {
+        let last = if k == K_ROW { LAST_ROW } else { LAST_COLUMN };
+        let mut ats: Vec<i32> = (-4..=4).collect();
+        ats.extend(last - 8..=last + 3);
+        ats.extend([i32::MIN + 1, -last, last * 2, i32::MAX - 8]);
+        for &delta in deltas {
+            for &at in &ats {
+                let mut m = new_model();
+                m.set_user_input(0, 2, 2, "1".to_string()).unwrap();
+                let obs = if run_op(&mut m, k, at, delta, 1).is_ok() { "ok" } else { "err" };
+                st.seen(&format!("val {obs} {}", at.signum()));
+                st.bump("val");
+                cs.case(&format!("val {last} {at} {delta}"), obs);
             }
         }
     }
